@@ -44,7 +44,9 @@ func (srv *Srv) NewConn(c net.Conn) {
 }
 
 func (conn *Conn) close() {
+	verifPoint("close.enter", conn)
 	conn.done <- true
+	verifPoint("close.stopped", conn)
 	conn.Srv.Lock()
 	delete(conn.Srv.conns, conn)
 	conn.Srv.Unlock()
@@ -62,6 +64,7 @@ func (conn *Conn) close() {
 			op.FidDestroy(fid)
 		}
 	}
+	verifPoint("close.exit", conn)
 }
 
 func (conn *Conn) recv() {
@@ -146,6 +149,7 @@ func (conn *Conn) recv() {
 				req.next.prev = req
 			}
 			conn.Unlock()
+			verifPoint("recv.dispatch", req)
 			if process {
 				// Tversion may change some attributes of the
 				// connection, so we block on it. Otherwise,
@@ -173,6 +177,7 @@ func (conn *Conn) send() {
 
 		case req := <-conn.reqout:
 			SetTag(req.Rc, req.Tc.Tag)
+			verifPoint("send.dequeued", req)
 			conn.Lock()
 			conn.rsz += uint64(req.Rc.Size)
 			conn.npend--
@@ -200,6 +205,7 @@ func (conn *Conn) send() {
 				buf = buf[n:]
 			}
 
+			verifPoint("send.written", req)
 			select {
 			case conn.rchan <- req.Rc:
 				break
